@@ -71,7 +71,8 @@ RECURSIVE Extreme(_, _, _, _)
 Extreme(xs, i, best, wantMax) ==
   IF i > Len(xs) THEN R(best)
   ELSE LET c == Cmp(best, xs[i]) IN
-       IF c \in {"inc", "un"} THEN (IF c = "un" THEN D(E({"type"})) ELSE E({"type"}))
+       IF best.t \in {"bytes", "null"} /\ xs[i].t = best.t THEN D(E({"type"}))      \* ordering of bytes / null is not pinned
+       ELSE IF c \in {"inc", "un"} THEN (IF c = "un" THEN D(E({"type"})) ELSE E({"type"}))
        ELSE IF c = "eq" THEN
               (IF Same(best, xs[i]) THEN Extreme(xs, i + 1, xs[i], wantMax)
                ELSE D(Extreme(xs, i + 1, xs[i], wantMax)))
